@@ -5,6 +5,7 @@ import (
 	"encoding/json"
 	"fmt"
 	"math/big"
+	"math/rand"
 	"sort"
 	"strings"
 	"time"
@@ -1304,6 +1305,7 @@ func (m *farmMon) probe(s *farmSnap) {
 // generator (also the reusable Workload)
 
 type farmGen struct {
+	plainLists bool
 	run         *ev.Run
 	r           *rig.Rig
 	tok         []string // coinswap counterparty denoms whose LP tokens are staked
@@ -1433,8 +1435,12 @@ func (g *farmGen) mkCreate(v *farmView, regime string, life int, startOff int64,
 		tot = tot.Add(coin(d, total))
 	}
 	g.nCreated++
+	listNote := ""
+	if !g.plainLists {
+		rpb, tot = farmListOrder(rng, rpb, &listNote), farmListOrder(rng, tot, &listNote)
+	}
 	msg := &farmtypes.MsgCreatePool{Description: regime, LptDenom: lpt, StartHeight: v.h + startOff, RewardPerBlock: rpb, TotalReward: tot, Editable: editable, Creator: cr.Addr.String()}
-	return g.r.Mk(cr, &farmTag{Kind: "create", Note: regime}, msg), true
+	return g.r.Mk(cr, &farmTag{Kind: "create", Note: regime + listNote}, msg), true
 }
 
 func (g *farmGen) mkStake(v *farmView, p farmtypes.FarmPool, a *rig.Account, amt *big.Int, hostile string) (rig.Tx, bool) {
@@ -1497,13 +1503,14 @@ func (g *farmGen) mkAdjust(v *farmView, p farmtypes.FarmPool, variant int) (rig.
 		return rig.Tx{}, false
 	}
 	msg := &farmtypes.MsgAdjustPool{PoolId: p.Id, Creator: p.Creator}
+	note := fmt.Sprint("v", variant)
 	if !add.Empty() {
-		msg.AdditionalReward = add
+		msg.AdditionalReward = farmListOrder(rng, add, &note)
 	}
 	if !rpb.Empty() {
-		msg.RewardPerBlock = rpb
+		msg.RewardPerBlock = farmListOrder(rng, rpb, &note)
 	}
-	return g.r.Mk(cr, &farmTag{Kind: "adjust", Note: fmt.Sprint("v", variant)}, msg), true
+	return g.r.Mk(cr, &farmTag{Kind: "adjust", Note: note}, msg), true
 }
 
 func (g *farmGen) mkDestroy(p farmtypes.FarmPool) (rig.Tx, bool) {
@@ -2142,6 +2149,7 @@ func runFarm(run *ev.Run, c int, mode string) {
 				extra = append(extra, tx)
 			}
 		}
+		g.plainLists = true // the scripted creations below have to succeed: their coin lists stay in canonical order
 		maxCat := int(v.s.Params.MaxRewardCategories)
 		switch {
 		case b == 0:
@@ -2225,6 +2233,7 @@ func runFarm(run *ev.Run, c int, mode string) {
 		if b > 2 && b%23 == 0 && b < endgame && len(v.s.Pools) < g.maxPools {
 			add(g.mkCreate(v, g.pickRegime(), 4+rng.Intn(6), int64(rng.Intn(2)), 1+rng.Intn(maxInt(maxCat, 1)), rng.Intn(2) == 0))
 		}
+		g.plainLists = false
 		deliver(g.block(v, extra))
 		if b >= 2 && rng.Intn(6) == 0 { // block gap
 			for k := 1 + rng.Intn(4); k > 0; k-- {
@@ -2374,7 +2383,15 @@ func runFarmTwins(run *ev.Run, c int) {
 			default:
 				d := denoms[rng.Intn(len(denoms))]
 				op := farmTwOp{Kind: "adjust"}
-				if rng.Intn(2) == 0 {
+				if len(denoms) > 1 && rng.Intn(3) == 0 {
+					// every denomination's rate lowered by one in one message (a rate-only list of several coins)
+					for _, dd := range denoms {
+						if curRate[dd].Cmp(bigOne) > 0 {
+							curRate[dd] = new(big.Int).Sub(curRate[dd], bigOne)
+						}
+						op.Rpb = op.Rpb.Add(coin(dd, curRate[dd]))
+					}
+				} else if rng.Intn(2) == 0 {
 					op.Add = sdk.NewCoins(coin(d, new(big.Int).Mul(curRate[d], big.NewInt(int64(1+rng.Intn(5))))))
 				} else {
 					nr := probe.regimeAmt(regime, true)
@@ -2442,10 +2459,20 @@ func runFarmTwins(run *ev.Run, c int) {
 					if !op.Add.Empty() {
 						msg.AdditionalReward = op.Add
 					}
+					note := "twin"
 					if !op.Rpb.Empty() {
 						msg.RewardPerBlock = op.Rpb
+						if len(op.Rpb) > 1 && op.Add.Empty() {
+							// a rate-only adjustment of several denominations, listed in reverse order (both twins alike)
+							msg.RewardPerBlock = make(sdk.Coins, len(op.Rpb))
+							for i, c := range op.Rpb {
+								msg.RewardPerBlock[len(op.Rpb)-1-i] = c
+							}
+							note += "/coins-listed-in-reverse-order"
+							run.Count("twin-rate-only-adjustment-listed-in-reverse-order", 1)
+						}
 					}
-					txs = append(txs, r.Mk(cr, &farmTag{Kind: "adjust", Note: "twin"}, msg))
+					txs = append(txs, r.Mk(cr, &farmTag{Kind: "adjust", Note: note}, msg))
 				}
 				nScripted++
 			}
@@ -2534,4 +2561,18 @@ func runFarmTwins(run *ev.Run, c int) {
 	run.Require("twin-history-run", 2)
 	run.Require("harvest-ok", 1)
 	run.Require("payout-bound-checked", 1)
+}
+
+// farmListOrder: a message may list its coins in any order (the wire format does not sort them, and the messages' own
+// stateless validation sorts a copy before judging); one list in four with two or more coins is sent in reverse order
+func farmListOrder(rng *rand.Rand, cs sdk.Coins, note *string) sdk.Coins {
+	if len(cs) < 2 || rng.Intn(4) != 0 {
+		return cs
+	}
+	out := make(sdk.Coins, len(cs))
+	for i, c := range cs {
+		out[len(cs)-1-i] = c
+	}
+	*note += "/coins-listed-in-reverse-order"
+	return out
 }
